@@ -32,6 +32,19 @@ fn prim_result(parts: &[&str]) -> String {
                 h.hmac(&b(parts[4]), &b(parts[5]), &mut out);
                 format!("ok {}", hex(&out[..h.hash_len()]))
             },
+            "hmacseq" => {
+                // several HMACs on ONE hash object (a wrapper that caches keyed state between calls must not let an
+                // earlier key influence a later result)
+                let Some(mut h) = hash_choice(parts[3]).and_then(|c| r.resolve_hash(&c)) else { return "none".into() };
+                let mut outs = vec![];
+                for kd in parts[4].split(',') {
+                    let (k, d) = kd.split_once(':').unwrap_or((kd, "-"));
+                    let mut out = [0u8; 64];
+                    h.hmac(&b(k), &b(d), &mut out);
+                    outs.push(hex(&out[..h.hash_len()]));
+                }
+                format!("ok {}", outs.join(","))
+            },
             "hkdf" => {
                 let Some(mut h) = hash_choice(parts[3]).and_then(|c| r.resolve_hash(&c)) else { return "none".into() };
                 let n: usize = parts[6].parse().unwrap();
@@ -138,6 +151,27 @@ pub fn gen_prim(run: &mut Run, seed: u64, thorough: bool, light: bool) {
             }
             for klen in [0, 1, block - 1, block] {
                 prim(&mut sc, format!("prim {res} hmac {h} {} {}", hex(&r.bytes(klen)), hex(&r.bytes(50))));
+            }
+            // one hash object, related keys: the same key twice, a prefix of the previous key, the previous key
+            // extended, zero-padded variants, and unrelated keys in between
+            for _ in 0..(if light { 1 } else { 6 }) {
+                let base = r.bytes(block);
+                let mut items: Vec<String> = vec![];
+                let mut prev = base.clone();
+                for step in 0..8 {
+                    let key: Vec<u8> = match (step + r.below(3)) % 6 {
+                        0 => prev.clone(),
+                        1 => prev[..prev.len().saturating_sub(1 + r.below(prev.len().max(1)))].to_vec(),
+                        2 => { let mut k = prev.clone(); if k.len() < block { k.push(r.below(256) as u8); } k },
+                        3 => { let mut k = prev.clone(); if k.len() < block { k.push(0); } k },
+                        4 => base[..r.below(block + 1)].to_vec(),
+                        _ => { let n = r.below(block + 1); r.bytes(n) },
+                    };
+                    let dlen = r.below(70);
+                    items.push(format!("{}:{}", hex(&key), hex(&r.bytes(dlen))));
+                    prev = key;
+                }
+                prim(&mut sc, format!("prim {res} hmacseq {h} {}", items.join(",")));
             }
             run.add("prim", format!("{res} {h}"), sc);
         }
@@ -266,6 +300,52 @@ pub fn gen_prim(run: &mut Run, seed: u64, thorough: bool, light: bool) {
             }
             run.add("prim", format!("{res} {d}"), sc);
         }
+    }
+    // one random source, many draws: no block of output may repeat (implementation only, OS randomness)
+    if !light {
+        let mut sc = Sc::new();
+        sc.ex.comment("one resolver RNG object, many draws (implementation only)");
+        for res in ["default", "ring", "fb(ring,default)", "fb(none,default)"] {
+            if !crate::gen::FULL && res.contains("ring") {
+                continue;
+            }
+            let Some(rr) = resolver_from_expr(res) else { continue };
+            let Some(mut rng) = rr.resolve_rng() else { continue };
+            let mut seen: Vec<Vec<u8>> = vec![];
+            let sizes = [32usize, 32, 32, 32, 32, 32, 32, 32, 32, 32, 16, 16, 64, 8, 32, 32, 24, 40, 32, 32, 32, 32, 32, 32, 32, 32, 32, 32, 32, 32, 32, 32, 32, 32, 32, 32, 32, 32, 32, 32];
+            let mut bad = false;
+            for (i, n) in sizes.iter().cycle().take(if thorough { 400 } else { 120 }).enumerate() {
+                let mut buf = vec![0u8; *n];
+                let ok = catch_unwind(AssertUnwindSafe(|| rng.try_fill_bytes(&mut buf).is_ok())).unwrap_or(false);
+                if !ok {
+                    sc.viol("C10", format!("{res}: the resolver's random source failed or panicked at draw {i}"));
+                    break;
+                }
+                // compare 8-byte windows at the start of every draw of at least 8 bytes
+                let w = buf[..8].to_vec();
+                if seen.contains(&w) && !bad {
+                    sc.viol("C18", format!("{res}: draw {i} of one random source repeats an earlier draw (generated keys would repeat)"));
+                    sc.viol("C06", format!("{res}: the random source repeats output (draw {i}): ephemeral keys would repeat"));
+                    bad = true;
+                }
+                seen.push(w);
+                sc.count("prim.rng_draw");
+            }
+            // and through Dh::generate, as Builder::generate_keypair and the handshake do
+            if let Some(mut dh) = rr.resolve_dh(&snow::params::DHChoice::Curve25519) {
+                let mut keys: Vec<Vec<u8>> = vec![];
+                for i in 0..24 {
+                    dh.generate(&mut *rng);
+                    let k = dh.privkey().to_vec();
+                    if keys.contains(&k) {
+                        sc.viol("C18", format!("{res}: key pair {i} generated from one random source repeats an earlier one"));
+                        break;
+                    }
+                    keys.push(k);
+                }
+            }
+        }
+        run.add("keygen", "one random source, many draws".into(), sc);
     }
     // generated key pairs: consistent and distinct (implementation only, OS randomness)
     if !light {
